@@ -57,6 +57,23 @@ func c14OtherPEMs() []namedPEM {
 	add("certificate labelled as key", "PRIVATE KEY", keys.C(1).Raw, nil)
 	b, err = x509.MarshalPKCS8PrivateKey(keys.K(1))
 	add("key labelled as certificate", "CERTIFICATE", b, err)
+	keyPEM := keys.PEM(1)
+	certPEM := keys.CertPEM(keys.C(1))
+	cat := func(parts ...[]byte) []byte {
+		var b []byte
+		for _, p := range parts {
+			b = append(b, p...)
+		}
+		return b
+	}
+	out = append(out,
+		namedPEM{"key followed by certificate", cat(keyPEM, certPEM)},
+		namedPEM{"certificate followed by key", cat(certPEM, keyPEM)},
+		namedPEM{"key followed by a blank line", cat(keyPEM, []byte("\n"))},
+		namedPEM{"key followed by text", cat(keyPEM, []byte("trailing text without newline"))},
+		namedPEM{"certificate twice", cat(certPEM, certPEM)},
+		namedPEM{"three blocks of other kinds, then key and certificate", cat(out[0].pem, out[2].pem, out[6].pem, keyPEM, certPEM)},
+	)
 	out = append(out, namedPEM{"PEM with headers", pem.EncodeToMemory(&pem.Block{Type: "PRIVATE KEY", Headers: map[string]string{"Proc-Type": "4,ENCRYPTED", "DEK-Info": "AES-128-CBC,00"}, Bytes: b})})
 	return out
 }
